@@ -164,6 +164,11 @@ func (s *strct) Parse(ctx *parseContext, parent reflect.Value) (out []reflect.Va
 	start := ctx.RawCursor()
 	t := ctx.Peek()
 	s.maybeInjectStartToken(t, sv)
+	// Captures deferred by enclosing productions belong to a branch that may yet be abandoned, so they
+	// must stay pending: only the captures recorded by this production are applied below.
+	pending := ctx.apply
+	ctx.apply = nil
+	defer func() { ctx.apply = pending }()
 	if out, err = s.expr.Parse(ctx, sv); err != nil {
 		_ = ctx.Apply() // Best effort to give partial AST.
 		ctx.MaybeUpdateError(err)
